@@ -1,5 +1,363 @@
 package main
 
+import (
+	"go/ast"
+	"go/token"
+	"sort"
+	"strconv"
+	"strings"
+)
+
 // factsMore: facts for the remaining properties (one function per property group).
 func factsMore(x *extractor) {
+	x.factsWire()
+	x.factsFramer()
+	x.factsForward()
+}
+
+const netceptorGo = "pkg/netceptor/netceptor.go"
+
+func atoi(s string) int {
+	v, err := strconv.Atoi(s)
+	if err != nil {
+		return -1
+	}
+	return v
+}
+
+// sliceBounds returns (low, high) of a slice expression with literal bounds; -1 when absent/non-literal.
+func (x *extractor) sliceBounds(e ast.Expr) (string, int, int) {
+	se, ok := e.(*ast.SliceExpr)
+	if !ok {
+		return "", -1, -1
+	}
+	lo, hi := -1, -1
+	if se.Low == nil {
+		lo = 0
+	} else if bl, ok := se.Low.(*ast.BasicLit); ok {
+		lo = atoi(bl.Value)
+	}
+	if se.High != nil {
+		if bl, ok := se.High.(*ast.BasicLit); ok {
+			hi = atoi(bl.Value)
+		}
+	}
+	return x.str(se.X), lo, hi
+}
+
+// assignRHS finds `name, … := <call>` / `name := <expr>` in fd and returns the first RHS.
+func assignRHS(fd *ast.FuncDecl, name string) ast.Expr {
+	var res ast.Expr
+	ast.Inspect(fd, func(n ast.Node) bool {
+		if as, ok := n.(*ast.AssignStmt); ok && res == nil && len(as.Lhs) > 0 && len(as.Rhs) > 0 {
+			if id, ok := as.Lhs[0].(*ast.Ident); ok && id.Name == name {
+				res = as.Rhs[0]
+			}
+		}
+		return true
+	})
+	return res
+}
+
+// innermost call argument chain: f(g(h(x))) -> x
+func innerArg(e ast.Expr) ast.Expr {
+	for {
+		c, ok := e.(*ast.CallExpr)
+		if !ok || len(c.Args) == 0 {
+			return e
+		}
+		e = c.Args[0]
+	}
+}
+
+func (x *extractor) setNat(name string, v int) {
+	if v < 0 {
+		v = 999999 // unknown: a value no expectation matches
+	}
+	x.set(name, v)
+}
+
+// ---------------------------------------------------------------- C02: wire codec
+
+func (x *extractor) factsWire() {
+	names := []string{"wire_min_len", "wire_from_off", "wire_to_off", "wire_fsvc_off", "wire_tsvc_off",
+		"wire_data_off", "wire_ttl_idx", "wire_svc_len"}
+	vals := map[string]int{}
+	for _, n := range names {
+		vals[n] = -1
+	}
+	endian := "unknown"
+	if fd := x.fn(netceptorGo, "Netceptor", "translateDataToMessage"); fd != nil {
+		// if len(data) < N { return error }
+		ast.Inspect(fd, func(n ast.Node) bool {
+			if is, ok := n.(*ast.IfStmt); ok {
+				if be, ok := is.Cond.(*ast.BinaryExpr); ok && be.Op == token.LSS && x.str(be.X) == "len(data)" {
+					if bl, ok := be.Y.(*ast.BasicLit); ok && vals["wire_min_len"] < 0 {
+						vals["wire_min_len"] = atoi(bl.Value)
+					}
+				}
+			}
+			return true
+		})
+		hashOff := func(v string) int {
+			rhs := assignRHS(fd, v)
+			if rhs == nil {
+				return -1
+			}
+			s := x.str(rhs)
+			if strings.Contains(s, "binary.BigEndian.Uint64") {
+				endian = "BigEndian"
+			} else if strings.Contains(s, "binary.LittleEndian.Uint64") {
+				endian = "LittleEndian"
+			}
+			_, lo, hi := x.sliceBounds(innerArg(rhs))
+			if hi-lo != 8 {
+				return -1
+			}
+			return lo
+		}
+		svcOff := func(v string) (int, int) {
+			rhs := assignRHS(fd, v)
+			if rhs == nil || !strings.HasPrefix(x.str(rhs), "stringFromFixedLenBytes(") {
+				return -1, -1
+			}
+			_, lo, hi := x.sliceBounds(innerArg(rhs))
+			return lo, hi - lo
+		}
+		// the MessageData literal must bind the fields to these variables
+		bind := map[string]string{}
+		ast.Inspect(fd, func(n ast.Node) bool {
+			if cl, ok := n.(*ast.CompositeLit); ok && x.str(cl.Type) == "MessageData" {
+				for _, e := range cl.Elts {
+					if kv, ok := e.(*ast.KeyValueExpr); ok {
+						bind[x.str(kv.Key)] = x.str(kv.Value)
+						if x.str(kv.Key) == "HopsToLive" {
+							if ie, ok := kv.Value.(*ast.IndexExpr); ok && x.str(ie.X) == "data" {
+								if bl, ok := ie.Index.(*ast.BasicLit); ok {
+									vals["wire_ttl_idx"] = atoi(bl.Value)
+								}
+							}
+						}
+						if x.str(kv.Key) == "Data" {
+							if b, lo, hi := x.sliceBounds(kv.Value); b == "data" && hi == -1 {
+								vals["wire_data_off"] = lo
+							}
+						}
+					}
+				}
+			}
+			return true
+		})
+		if bind["FromNode"] != "" {
+			vals["wire_from_off"] = hashOff(bind["FromNode"])
+		}
+		if bind["ToNode"] != "" {
+			vals["wire_to_off"] = hashOff(bind["ToNode"])
+		}
+		l1, l2 := -1, -1
+		if bind["FromService"] != "" {
+			vals["wire_fsvc_off"], l1 = svcOff(bind["FromService"])
+		}
+		if bind["ToService"] != "" {
+			vals["wire_tsvc_off"], l2 = svcOff(bind["ToService"])
+		}
+		if l1 == l2 {
+			vals["wire_svc_len"] = l1
+		}
+	}
+	for _, n := range names {
+		x.setNat(n, vals[n])
+	}
+	header, order := "unknown", []string{}
+	if fd := x.fn(netceptorGo, "Netceptor", "translateDataFromMessage"); fd != nil {
+		ast.Inspect(fd, func(n ast.Node) bool {
+			c, ok := n.(*ast.CallExpr)
+			if !ok {
+				return true
+			}
+			switch x.str(c.Fun) {
+			case "buf.Write":
+				if len(c.Args) == 1 {
+					a := x.str(c.Args[0])
+					switch {
+					case strings.HasPrefix(a, "[]byte{"):
+						header = strings.ReplaceAll(strings.TrimSuffix(strings.TrimPrefix(a, "[]byte{"), "}"), " ", "")
+					case strings.HasPrefix(a, "fixedLenBytesFromString(msg."):
+						in := strings.TrimSuffix(strings.TrimPrefix(a, "fixedLenBytesFromString(msg."), ")")
+						order = append(order, strings.ReplaceAll(in, ", ", ":"))
+					case strings.HasPrefix(a, "msg."):
+						order = append(order, strings.TrimPrefix(a, "msg."))
+					default:
+						order = append(order, "?"+a)
+					}
+				}
+			case "binary.Write":
+				if len(c.Args) == 3 {
+					a := x.str(c.Args[2])
+					if x.str(c.Args[1]) != "binary."+endian {
+						endian = "mixed"
+					}
+					if strings.HasPrefix(a, "s.AddNameHash(msg.") {
+						order = append(order, strings.TrimSuffix(strings.TrimPrefix(a, "s.AddNameHash(msg."), ")"))
+					} else {
+						order = append(order, "?"+a)
+					}
+				}
+			}
+			return true
+		})
+	}
+	x.set("wire_enc_header", header)
+	x.set("wire_enc_order", strings.Join(order, ","))
+	x.set("wire_hash_endian", endian)
+	// dispatch: destination test, then registry lookup by ToService
+	key := "unknown"
+	if fd := x.fn(netceptorGo, "Netceptor", "handleMessageData"); fd != nil {
+		cond, idx := "", ""
+		ast.Inspect(fd, func(n ast.Node) bool {
+			switch v := n.(type) {
+			case *ast.IfStmt:
+				if cond == "" && strings.Contains(x.str(v.Cond), "ToNode") {
+					cond = x.str(v.Cond)
+				}
+			case *ast.IndexExpr:
+				if idx == "" && x.str(v.X) == "s.listenerRegistry" {
+					idx = x.str(v)
+				}
+			}
+			return true
+		})
+		key = cond + ";" + idx
+	}
+	x.set("dispatch_key", key)
+}
+
+// ---------------------------------------------------------------- C02/C07: framer
+
+func (x *extractor) factsFramer() {
+	const fg = "pkg/framer/framer.go"
+	lenBytes, endian, get := -1, "unknown", "unknown"
+	if fd := x.fn(fg, "framer", "SendData"); fd != nil {
+		ast.Inspect(fd, func(n ast.Node) bool {
+			if c, ok := n.(*ast.CallExpr); ok {
+				f := x.str(c.Fun)
+				if f == "make" && len(c.Args) == 2 {
+					if be, ok := c.Args[1].(*ast.BinaryExpr); ok && be.Op == token.ADD && x.str(be.X) == "len(data)" {
+						if bl, ok := be.Y.(*ast.BasicLit); ok {
+							lenBytes = atoi(bl.Value)
+						}
+					}
+				}
+				if strings.HasSuffix(f, ".PutUint16") {
+					endian = strings.TrimSuffix(strings.TrimPrefix(f, "binary."), ".PutUint16")
+					if _, lo, hi := x.sliceBounds(c.Args[0]); lo != 0 || hi != lenBytes {
+						endian = "unknown"
+					}
+				}
+			}
+			return true
+		})
+	}
+	if fd := x.fn(fg, "framer", "messageReady"); fd != nil {
+		ok1, ok2 := false, false
+		ast.Inspect(fd, func(n ast.Node) bool {
+			s := x.str(n)
+			if s == "int(binary."+endian+".Uint16(f.buffer[:2]))" {
+				ok1 = true
+			}
+			if s == "len(f.buffer) >= msgSize+2" {
+				ok2 = true
+			}
+			return true
+		})
+		if !ok1 || !ok2 {
+			endian = "unknown:messageReady"
+		}
+	}
+	if fd := x.fn(fg, "framer", "GetMessage"); fd != nil {
+		var parts []string
+		ast.Inspect(fd, func(n ast.Node) bool {
+			if as, ok := n.(*ast.AssignStmt); ok && len(as.Rhs) == 1 {
+				if _, ok := as.Rhs[0].(*ast.SliceExpr); ok {
+					parts = append(parts, strings.ReplaceAll(strings.TrimPrefix(x.str(as.Rhs[0]), "f."), " ", ""))
+				}
+			}
+			return true
+		})
+		get = strings.Join(parts, ";")
+	}
+	x.setNat("frame_len_bytes", lenBytes)
+	x.set("frame_endian", endian)
+	x.set("frame_get", get)
+}
+
+// ---------------------------------------------------------------- C10: forwardMessage
+
+func (x *extractor) factsForward() {
+	expire, guard, dec, budget := "unknown", false, -1, "unknown"
+	type mark struct {
+		pos  token.Pos
+		name string
+	}
+	var marks []mark
+	if fd := x.fn(netceptorGo, "Netceptor", "forwardMessage"); fd != nil && len(fd.Body.List) > 0 {
+		if is, ok := fd.Body.List[0].(*ast.IfStmt); ok {
+			expire = strings.ReplaceAll(x.str(is.Cond), "md.", "")
+			marks = append(marks, mark{is.Pos(), "expire-test"})
+			// body: `if md.FromService != "unreach" { sendUnreachable }` and a return
+			for _, st := range is.Body.List {
+				if in, ok := st.(*ast.IfStmt); ok && x.str(in.Cond) == `md.FromService != "unreach"` &&
+					strings.Contains(x.str(in.Body), "sendUnreachable") {
+					guard = true
+				}
+			}
+			if len(is.Body.List) == 0 {
+				expire = "unknown:no-return"
+			} else if _, ok := is.Body.List[len(is.Body.List)-1].(*ast.ReturnStmt); !ok {
+				expire = "unknown:no-return"
+			}
+		}
+		for _, st := range fd.Body.List {
+			s := x.str(st)
+			switch {
+			case strings.Contains(s, "s.routingTable[md.ToNode]"):
+				marks = append(marks, mark{st.Pos(), "route"})
+			case strings.Contains(s, "s.connections[nextHop]"):
+				marks = append(marks, mark{st.Pos(), "conn"})
+			case strings.Contains(s, "translateDataFromMessage(md)"):
+				marks = append(marks, mark{st.Pos(), "encode"})
+			}
+			if ids, ok := st.(*ast.IncDecStmt); ok && x.str(ids.X) == "message[1]" && ids.Tok == token.DEC {
+				dec = 1
+				marks = append(marks, mark{st.Pos(), "decrement"})
+			}
+			if as, ok := st.(*ast.AssignStmt); ok && len(as.Lhs) == 1 && x.str(as.Lhs[0]) == "message[1]" && as.Tok == token.SUB_ASSIGN {
+				if bl, ok := as.Rhs[0].(*ast.BasicLit); ok {
+					dec = atoi(bl.Value)
+					marks = append(marks, mark{st.Pos(), "decrement"})
+				}
+			}
+			if sel, ok := st.(*ast.SelectStmt); ok && strings.Contains(x.str(sel), "c.WriteChan <- message") {
+				marks = append(marks, mark{st.Pos(), "send"})
+			}
+		}
+	}
+	sort.Slice(marks, func(i, j int) bool { return marks[i].pos < marks[j].pos })
+	ord := []string{}
+	for _, m := range marks {
+		ord = append(ord, m.name)
+	}
+	if fd := x.fn(netceptorGo, "Netceptor", "sendMessage"); fd != nil {
+		ast.Inspect(fd, func(n ast.Node) bool {
+			if c, ok := n.(*ast.CallExpr); ok && x.str(c.Fun) == "s.SendMessageWithHopsToLive" && len(c.Args) == 5 {
+				budget = x.str(c.Args[4])
+			}
+			return true
+		})
+	}
+	x.set("fwd_expire_test", expire)
+	x.setNat("fwd_decrement", dec)
+	x.set("fwd_notice_guard", guard)
+	x.set("fwd_order", strings.Join(ord, ","))
+	x.set("fwd_sendmessage_budget", budget)
 }
